@@ -1162,8 +1162,13 @@ func (c *FnCtx) assignKeys(e Expr, callee *ssa.Function) ([]string, bool) {
 			}
 		}
 	case *EUnary:
-		if pt := derefType(t); pt != nil {
-			_ = pt
+		if n.Op == "*" {
+			// t is the type of the pointee
+			if st, ok := t.Underlying().(*types.Struct); ok {
+				_ = st
+				return []string{"fld|" + typeKey(t) + "|"}, false
+			}
+			return []string{"cell|" + typeKey(t)}, false
 		}
 	}
 	return nil, true
